@@ -467,6 +467,8 @@ def t_products(acc, shard, nshard, stride=1):
                         if res[0]:
                             acc.c['OK_verdicts'] += 1
                             crit = product_criterion(text, A, B, opf, P)
+                            if label != 'correct' and len(acc.samples) < 2:
+                                acc.sample(dict(inst, verdict='OK', criterion_violated=crit or None))
                             if crit:
                                 acc.viol(checker.__name__, 'OK although the answer violates the criterion of the product exercise', inst, repro=rp, observed=crit)
                             else:
@@ -741,6 +743,8 @@ def t_nfa2dfa(acc, shard, nshard):
                     continue
                 acc.evals += 1
                 acc.validated += 1
+                if not res[0] and label != 'correct' and T and len(acc.samples) < 1:
+                    acc.sample(dict(inst, verdict='not OK', first_feedback_line=(res[1][:1] if len(res) > 1 and isinstance(res[1], list) else None)))
                 if res[0]:
                     crit = nfa2dfa_criterion(names, Sg, aT, aq0, aF, A, Q)
                     if crit:
